@@ -119,6 +119,75 @@ def histories(R, n):
     return hs
 
 
+def fault_cases(R, n):
+    """oracle-only: two writers, the second one fails once - on the k-th statement - after the first has already received the
+    line; the caller catches the device error, drops the broken writer and carries on.  The interlocks must still be
+    judged on what was actually emitted (writer 1)."""
+    from gscrib import GCodeBuilder
+    from gscrib.excepts import DeviceError
+    from gscrib.writers import BaseWriter
+    from .builder_impl import canon_stmt
+
+    calls = [("tool_on", lambda g: g.tool_on("clockwise", 1000)), ("power_on", lambda g: g.power_on("constant", 50)),
+             ("coolant_on", lambda g: g.coolant_on("flood")), ("coolant_mist", lambda g: g.coolant_on("mist")),
+             ("tool_off", lambda g: g.tool_off()), ("coolant_off", lambda g: g.coolant_off()), ("pause", lambda g: g.pause()),
+             ("tool_change", lambda g: g.tool_change("manual", 2)), ("stop", lambda g: g.stop()), ("wait", lambda g: g.wait()),
+             ("move", lambda g: g.move(x=1))]
+    for _ in range(n):
+        r = R.rng
+        k = r.randint(1, 4)
+
+        class Rec(BaseWriter):
+            def __init__(self, flaky):
+                self.lines, self.flaky, self.count = [], flaky, 0
+            def connect(self):
+                return self
+            def disconnect(self, wait=True):
+                pass
+            def flush(self):
+                pass
+            def write(self, b):
+                if self.flaky:
+                    self.count += 1
+                    if self.count == k:
+                        raise DeviceError("link glitch injected by the harness")
+                self.lines.append(bytes(b).decode("utf-8"))
+
+        g = GCodeBuilder(output=None, print_lines=False, line_endings="\n")
+        w1, w2 = Rec(False), Rec(True)
+        g.add_writer(w1)
+        g.add_writer(w2)
+        seq = [r.choice(calls) for _ in range(r.randint(3, 9))]
+        flags = {"tool": False, "cool": False}
+        names = []
+        R.evaluations += 1
+        R.count("fault-injection")
+        for name, fn in seq:
+            names.append(name)
+            n0 = len(w1.lines)
+            try:
+                fn(g)
+            except DeviceError:
+                g.remove_writer(w2)
+            except Exception:  # noqa  (interlock and validation errors are the API's business)
+                pass
+            for ln in w1.lines[n0:]:
+                codes = canon_stmt(ln.rstrip("\n")).split(",")
+                starts_tool, starts_cool = bool({"M03", "M04"} & set(codes)), bool({"M07", "M08"} & set(codes))
+                idle = bool({"M06", "M00", "M01", "M02", "M30", "M60", "M109", "M190", "M191", "M400"} & set(codes))
+                if (starts_tool and flags["tool"]) or (starts_cool and flags["cool"]) or (idle and (flags["tool"] or flags["cool"])):
+                    R.fail({"calls": names, "fault_at_statement": k}, f"`{ln.strip()}` emitted with tool={flags['tool']} coolant={flags['cool']} "
+                           "(a writer had failed earlier on a line the other writer received)", tag="unsafe")
+                if starts_tool:
+                    flags["tool"] = True
+                if "M05" in codes:
+                    flags["tool"] = False
+                if starts_cool:
+                    flags["cool"] = True
+                if "M09" in codes:
+                    flags["cool"] = False
+
+
 def run(R: core.Run):
     R.rule = ("random call histories (5-40 calls) over the interlock API interleaved with moves, modes, temperatures and "
               "bounds, ~10% malformed arguments; non-trivial = at least two emitting calls; distinct by hash of the history")
@@ -131,6 +200,7 @@ def run(R: core.Run):
         ex = [list(t) for k in range(1, 5) for t in itertools.product(ALPHABET, repeat=k)]
         bc.correspond(R, ex, KEYS, True, "exhaustive<=4", oracle)
         R.extra["exhaustive_subrun"] = {"cases": len(ex), "scope": f"all sequences of length <= 4 over {len(ALPHABET)} interlock calls", "exhaustive": True}
+    fault_cases(R, R.n(300, 3000))
     if R.broken:
         R.search_batches += 1
         for h in histories(R, R.n(1500, 5000)):
